@@ -204,3 +204,39 @@ Theorem fill_sample_size_irrelevant s1 s2 order input :
   (length input + length order <= ssamples s2)%nat ->
   sam_fill s1 order input = sam_fill s2 order input.
 Proof. intros H1 H2. now rewrite !fill_sample_saturates. Qed.
+
+(** the sample size takes no part in the accounting: two trackers that differ in it only go through the same states
+    (up to it) and give the same results under every operation but [fill_sample]; hence a history under a sample size
+    no collection can hold is, apart from [fill_sample], the history under any other *)
+Definition with_samples (s : sampled) (n : nat) : sampled := mkSampled (smax s) (sused s) (scosts s) n.
+
+Definition is_fill (o : samop) : bool := match o with SFill _ _ => true | _ => false end.
+
+Theorem samstep_samples_irrelevant s n o :
+  is_fill o = false ->
+  samstep_t (with_samples s n) o = (with_samples (fst (samstep_t s o)) n, snd (samstep_t s o)).
+Proof.
+  destruct o as [k c|k c|k| |mc| |c|input appended]; cbn [is_fill]; intros Hf; try discriminate;
+    cbn [samstep_t with_samples].
+  - unfold sam_increment, with_samples. cbn. destruct (find k (scosts s)); reflexivity.
+  - unfold sam_update, with_samples. cbn. destruct (find k (scosts s)); reflexivity.
+  - unfold sam_remove, with_samples. cbn. destruct (find k (scosts s)); reflexivity.
+  - reflexivity.
+  - reflexivity.
+  - reflexivity.
+  - reflexivity.
+Qed.
+
+Theorem samrun_samples_irrelevant ops : forall s n,
+  forallb (fun o => negb (is_fill o)) ops = true ->
+  samrun (with_samples s n) ops = with_samples (samrun s ops) n.
+Proof.
+  induction ops as [|o t IH]; intros s n Hall; cbn [samrun fold_left]; [reflexivity|].
+  cbn [forallb] in Hall. apply andb_prop in Hall. destruct Hall as [Ho Ht].
+  apply Bool.negb_true_iff in Ho.
+  change (fold_left (fun s0 o0 => fst (samstep_t s0 o0)) t (fst (samstep_t (with_samples s n) o)))
+    with (samrun (fst (samstep_t (with_samples s n) o)) t).
+  rewrite (samstep_samples_irrelevant s n o Ho). cbn [fst].
+  change (fold_left (fun s0 o0 => fst (samstep_t s0 o0)) t (fst (samstep_t s o))) with (samrun (fst (samstep_t s o)) t).
+  now apply IH.
+Qed.
